@@ -79,6 +79,15 @@ CHECKS = {
             "all totals >= 0, sums == T (machine: both groups and the occupancy histogram), set-up == min(setup,T), and IDLE / PROCESSING "
             "/ BLOCKED totals equal integrals reconstructed from ledger pull/push instants and recorded delay draws.",
             "Trusted: SimPy kernel; the outside ledger (instance-level wrappers on every store); harness-supplied delay sources that log every consultation; public stats. Tolerance 1e-9*max(1,T).", "DESIGN.md §4 C17"),
+    "C18": ("F", "property-based testing: generated factories, counters / averages / cycle times recomputed from the outside ledger",
+            "Exploration: generated factories over all edge kinds and end times; processed / received / generated / discarded counters "
+            "equal ledger counts, time-averaged edge content equals the integral of puts-gets over [0,T]/T, total_cycle_time equals "
+            "the sum of reception - creation stamps, stamps are consistent and monotone along every item's route.",
+            "Trusted: SimPy kernel; the outside ledger (instance-level wrappers on every store); harness-supplied delay sources that log every consultation; public stats. Creation time is the item's own stamp bracketed by generation and first push.", "DESIGN.md §4 C18"),
+    "C19": ("F", "property-based testing: generated factories, differential across four executions (same interpreter x2, other hash seed, perturbed heap)",
+            "Exploration: every generated factory is executed twice in-process and in child interpreters with a different PYTHONHASHSEED "
+            "and after a heap-shifting pre-allocation; canonical traces and final statistics must be identical; kernel time and ledger "
+            "times never decrease.", "Trusted: SimPy kernel; the outside ledger (instance-level wrappers on every store); harness-supplied delay sources that log every consultation; public stats. Hash-seed and address dependence are sampled, not enumerated.", "DESIGN.md §4 C19"),
 }
 
 NOT_YET = "check not built yet in this session (work in progress; see DESIGN.md §4)"
